@@ -4,6 +4,7 @@ import (
 	"bytes"
 	"crypto"
 	"crypto/x509"
+	"encoding/hex"
 	"errors"
 	"fmt"
 	"github.com/gr33nbl00d/caddy-revocation-validator/config"
@@ -32,11 +33,13 @@ type OCSPRevocationChecker struct {
 }
 
 func (c *OCSPRevocationChecker) IsRevoked(clientCertificate *x509.Certificate, verifiedChains [][]*x509.Certificate) (*core.RevocationStatus, error) {
-	subjectRDNSequence, err := asn1parser.ParseSubjectRDNSequence(clientCertificate)
+	issuer, err := asn1parser.ParseIssuerRDNSequence(clientCertificate)
 	if err != nil {
 		return nil, err
 	}
-	cacheKey := subjectRDNSequence.String() + "_" + clientCertificate.SerialNumber.String()
+	//a certificate is identified by its issuer (name and key identifier) and its serial number, not by its subject:
+	//different issuers may issue certificates with the same subject and serial number
+	cacheKey := issuer.String() + "_" + hex.EncodeToString(clientCertificate.AuthorityKeyId) + "_" + clientCertificate.SerialNumber.String()
 	cache, err := c.tryGetResponseFromCache(cacheKey)
 	if err == nil {
 		verifhook.Hit("ocsp.cache.hit", c, cacheKey)
@@ -47,10 +50,6 @@ func (c *OCSPRevocationChecker) IsRevoked(clientCertificate *x509.Certificate, v
 
 	chains := core.NewCertificateChains(verifiedChains, c.ocspConfig.TrustedResponderCerts)
 	//TODO Support AIA via clientCertificate.IssuingCertificateURL
-	issuer, err := asn1parser.ParseIssuerRDNSequence(clientCertificate)
-	if err != nil {
-		return nil, err
-	}
 	certCandidates, err := core.FindCertificateIssuerCandidates(issuer, &clientCertificate.Extensions, clientCertificate.PublicKeyAlgorithm, chains)
 	ocspServerList := c.filterHTTPOCSPServers(clientCertificate.OCSPServer)
 	var output []byte = nil
@@ -84,7 +83,7 @@ func (c *OCSPRevocationChecker) IsRevoked(clientCertificate *x509.Certificate, v
 			evictionTime := c.calculateEvictionTime(ocspResponse)
 			verifhook.Hit("ocsp.answer", c, cacheKey, evictionTime)
 			if evictionTime > 0 {
-				c.cache.Add(cacheKey, evictionTime, revocationStatus)
+				c.cache.Add(cacheKey, evictionTime, cachedRevocationStatus{revocationStatus, time.Now().Add(evictionTime)})
 			}
 			return &revocationStatus, nil
 		}
@@ -209,9 +208,20 @@ func (c *OCSPRevocationChecker) tryGetResponseFromCache(cacheKey string) (*core.
 	// Let's retrieve the item from the cache.
 	res, err := c.cache.Value(cacheKey)
 	if err == nil {
-		response := res.Data().(core.RevocationStatus)
-		return &response, nil
+		cached := res.Data().(cachedRevocationStatus)
+		//the cache renews the lifetime of an item on every access, but a response must not be used longer
+		//than calculated when it was received, no matter how often it is read
+		if !time.Now().Before(cached.validUntil) {
+			_, _ = c.cache.Delete(cacheKey)
+			return nil, errors.New("cached ocsp response is expired")
+		}
+		return &cached.status, nil
 	} else {
 		return nil, err
 	}
+}
+
+type cachedRevocationStatus struct {
+	status     core.RevocationStatus
+	validUntil time.Time
 }
